@@ -124,10 +124,7 @@ Theorem accept_iff_right_password_unaltered_challenge_same_client_in_lifetime_ra
   forall now host pw',
     login_raw HX b64dec priv realm now (ser fs) method host pw' = Some true <->
     (host = ip0 /\ (Z.of_N now - Z.of_N t0 <= lifetime)%Z /\ pw' = pw).
-Proof.
-  intros HX b64enc b64dec H1 H2 H3 H4 priv realm fs u n0 ip0 t0 method pw r Hwf Hasc. intros.
-  rewrite login_raw_ser by assumption. eapply accept_iff; eauto.
-Qed.
+Proof. exact accept_iff_raw. Qed.
 Print Assumptions accept_iff_right_password_unaltered_challenge_same_client_in_lifetime_raw_partial.
 
 (** a field name with a non-ASCII byte is an ordinary LoginFailed (used to escape as UnicodeDecodeError) *)
